@@ -158,6 +158,7 @@ pub fn payload_classes(seed: u64, format: TileFormat) -> Payloads {
 	Payloads {
 		list: vec![
 			("one_byte", (2, 1, 1), vec![0x42]),
+			("empty", (2, 2, 2), vec![]), // a zero-length payload (e.g. a vector tile without layers)
 			("incompressible_70k", (2, 2, 1), incompressible),
 			("compressible_200k", (2, 1, 2), compressible),
 			("small_tile", (3, 5, 5), small.clone()),
@@ -430,7 +431,24 @@ fn e2e_case(out: &mut Out, args: &Args, rt: &tokio::runtime::Runtime, n: &mut us
 					let declared = p.tile_compression;
 					out.oracle(declared == expected_declared, "C04 e2e declared", sig("e2e_declared", "-"), json!({"case": line, "declared": cname(declared)}));
 					out.oracle(p.tile_format == format, "C04 e2e tile format", sig("e2e_format", "-"), json!({"case": line}));
+					let mut dropped_empty = 0usize;
 					for ((class, blob), (_, c, payload)) in lookups.iter().zip(payloads.list.iter()) {
+						out.eval(&format!("{line} {class}"), f || declared != s);
+						out.count(&format!("payload_{class}"));
+						if payload.is_empty() && (blob.is_none() || !streamed.contains_key(c)) {
+							// a zero-length payload that cannot be read back: its own signature (known finding for
+							// uncompressed versatiles/pmtiles, where a zero-length range means "no tile")
+							if !streamed.contains_key(c) {
+								dropped_empty += 1;
+							}
+							out.oracle(
+								false,
+								"C04 e2e empty tile dropped",
+								json!({"kind":"empty_tile_dropped","fmt":fmt,"declared":cname(declared),"lookup_missing":blob.is_none(),"stream_missing":!streamed.contains_key(c)}),
+								json!({"case": line, "class": class, "note": "source tile with a zero-length payload is absent from the output container"}),
+							);
+							continue;
+						}
 						let dec = blob.as_ref().and_then(|b| indep_dec(declared, b));
 						out.oracle(
 							dec.as_ref() == Some(payload),
@@ -440,10 +458,8 @@ fn e2e_case(out: &mut Out, args: &Args, rt: &tokio::runtime::Runtime, n: &mut us
 						);
 						let sdec = streamed.get(c).and_then(|b| indep_dec(declared, b));
 						out.oracle(sdec.as_ref() == Some(payload), "C04 e2e stream payload", sig("e2e_stream_payload", class), json!({"case": line, "class": class}));
-						out.eval(&format!("{line} {class}"), f || declared != s);
-						out.count(&format!("payload_{class}"));
 					}
-					out.oracle(n_streamed == payloads.list.len(), "C04 e2e stream count", sig("e2e_stream_count", "-"), json!({"case": line, "streamed": n_streamed}));
+					out.oracle(n_streamed + dropped_empty == payloads.list.len(), "C04 e2e stream count", sig("e2e_stream_count", "-"), json!({"case": line, "streamed": n_streamed}));
 					// metadata
 					let src_meta: Vec<Option<String>> = META_KEYS.iter().map(|k| tilejson.get_string(k)).collect();
 					for (i, k) in META_KEYS.iter().enumerate() {
